@@ -2,7 +2,8 @@
 angles <-> unit-vector conversions are mutual inverses.
 
 Events : gcirc(units 0/1/2; arrays, 2-D arrays, scalars, scalar-vs-array broadcasting);
-         SkyCoord / frame .transform_to(SDSSMuNu(stripe=s)) and back (the transforms registered with astropy);
+         SkyCoord / frame .transform_to(SDSSMuNu(stripe=s)) and back (the transforms registered with astropy), also on ONE object
+         that is edited in place (item assignment) between transforms, on edited results and on objects that inherit a dead one's id;
          stripe_to_eta / stripe_to_incl / SDSSMuNu.incl;  angles_to_x / x_to_angles.
 Oracle : long-double (80 bit) spherical geometry in vlib/refs/sphere.py, evaluated on the float64 values that
          were actually passed: chord-formula separation (cross-checked against atan2(|a x b|, a.b) and against the
@@ -84,6 +85,20 @@ class C18(Check):
             'frames; objects derived by slice / reverse / boolean mask / reshape / T / ravel / copy / integer index from '
             'sources and from transform results; for each: rotation model, round trip of the direction, neighbour '
             'separations, nu=0 circle, repeat, source data unmodified, and a returned distance must equal the given one.  '
+            'The caller\'s coordinate object edited in place (class munu_inplace, every stripe): an ICRS frame, an ICRS SkyCoord, an '
+            'SDSSMuNu frame and an SDSSMuNu SkyCoord of 8-60 points (one of them of shape (2, n/2)) are transformed (ICRS objects to the '
+            'stripe and, in the sibling history, to a second stripe; (mu,nu) objects to ICRS, with another (mu,nu) object of a second '
+            'stripe transformed in between), then four times given new positions IN THE SAME OBJECT by item assignment - one element '
+            '(also negative index), a slice (steps 1, 2, -1, negative bounds), everything ([:] / [...]), a boolean mask, an integer index '
+            'array; the value an array of positions, or one position broadcast; unrelated positions (incl. both systems\' poles), '
+            'corrections of 1e-10..1e-2 rad, or only one of the two coordinates changed - and transformed again after every edit in one of '
+            'three histories (same stripe / other stripe first / first, other, first again).  Every answer is judged against the rotation '
+            'model of what the object reads at that moment, for neighbour separations and for the source reading unchanged; after the '
+            'whole history (so that nothing the oracle does sits between the caller\'s transforms) every answer must still read as at first, '
+            'transform back to what the object held, and equal the answer for a freshly built object of the same content; two of the '
+            'results are then themselves reversed in place and sent back; finally the object is dropped and five objects of the same '
+            'shape are built, transformed and dropped in turn (they take over the id of a dead one; some repeat its longitudes with '
+            'other latitudes).  '
             'Non-trivial: gcirc batch containing distinct points (reference separation > 0); mu/nu case of a stripe '
             'with non-zero inclination (stripes 10 and 82 are the identity rotation); angle/vector batch with points '
             'off the poles.  Distinct by hash of the materialised float64 input.')
@@ -106,6 +121,14 @@ class C18(Check):
         'error of a formula that converts each coordinate separately is the rounding of that conversion, eps*|coordinate| '
         '(two roundings for hours); for in-range coordinates this is the global 3e-13 floor, for small coordinates it is far '
         'tighter and for RA beyond one turn proportionally wider',
+        'munu_inplace: in-place change means astropy\'s item assignment (obj[index] = coordinate object of an equivalent frame), which '
+        'clears astropy\'s own per-object cache; writing through a Quantity shared with copy=False or into obj.data is outside the domain '
+        '(astropy itself then reads stale attributes).  The oracle speaks about what the object reads (ra/dec or mu/nu, copied) at the '
+        'moment it is handed to transform_to; the check verifies that this equals the assigned positions (harness-error otherwise).  '
+        'SDSSMuNu -> SDSSMuNu of another stripe is not exercised (astropy relabels the data without a registered self-transform)',
+        'buffer-reuse monitor (vlib/brd.py) attached to gcirc, angles_to_x, x_to_angles (every 3rd call, <= 3 differentials per case, result '
+        'ownership on); brd_differentials is a required counter.  It cannot reach radec_to_munu / munu_to_radec (astropy holds the '
+        'functions registered at import time), which is what class munu_inplace is for',
         'unit vectors: float64 vectors whose norm is within 2 ulp of 1 (correctly rounded from long double, or '
         'numpy v/numpy.linalg.norm(v)); angle arrays: float64, int64, int32',
     ]
@@ -135,7 +158,16 @@ class C18(Check):
                                'gcs_pairs', 'gcs_negative_ra_pairs', 'gcs_negative_ra_sep_below_1e-9rad', 'gcs_straddling_ra0_pairs',
                                'gcs_ra_beyond_one_turn_pairs', 'gcs_all_coordinates_below_1e-4rad_pairs', 'gcs_sep_below_1e-10rad',
                                'small_batches_n1', 'small_batches_n2', 'small_batches_n3', 'small_batches_n4', 'small_batches_n5',
-                               'small_x_to_angles_3x3_calls', 'small_angles_to_x_2x2_calls']
+                               'small_x_to_angles_3x3_calls', 'small_angles_to_x_2x2_calls',
+                               'brd_differentials',
+                               'inpl_edits', 'inpl_element_edits', 'inpl_slice_edits', 'inpl_all_edits', 'inpl_mask_edits',
+                               'inpl_fancy_edits', 'inpl_broadcast_value_edits', 'inpl_frame_objects', 'inpl_skycoord_objects',
+                               'inpl_2d_objects', 'inpl_transforms_after_edit_icrs', 'inpl_transforms_after_edit_munu',
+                               'inpl_points_moved_detectably', 'inpl_points_moved_lt_1e-6rad',
+                               'inpl_points_longitude_only_changed', 'inpl_points_latitude_only_changed',
+                               'inpl_history_same', 'inpl_history_other_first', 'inpl_history_sibling',
+                               'inpl_companion_transforms', 'inpl_fresh_object_comparisons', 'inpl_roundtrips',
+                               'inpl_results_alive_checks', 'inpl_result_edits', 'inpl_successor_objects_same_id']
                               + ['gc_sep_decade_1e%+d' % d for d in DECADES])
     REQUIRED_REACH = {'astro.gcirc': 0.85, 'coord.stripe_to_eta': 1.0, 'coord.stripe_to_incl': 1.0,
                       'coord.radec_to_munu': 1.0, 'coord.munu_to_radec': 1.0,
@@ -579,6 +611,11 @@ class C18(Check):
                 else:                                                     # unrelated positions (incl. poles of both systems, seam, node)
                     vl, vb = self._frame_points(g, max(m, 1), incl, icrs)
                     vl, vb = vl[:m], vb[:m]
+                    if style > 0.8:                                       # ... of which only one coordinate changes
+                        if style > 0.9:
+                            vl = np.reshape(sel, -1).copy()
+                        else:
+                            vb = np.reshape(cb[idx], -1).copy()
                 vl = np.mod(np.asarray(vl, dtype=np.float64), 360.0)
                 vl = np.where(vl >= 360.0, 0.0, vl) + 0.0
                 vb = np.asarray(vb, dtype=np.float64)
@@ -1648,6 +1685,8 @@ class C18(Check):
                 out.count('inpl_broadcast_value_edits')
             out.count('inpl_points_moved', int((moved > 0).sum()))
             out.count('inpl_points_moved_lt_1e-6rad', int(((moved > 0) & (moved < 1e-6)).sum()))
+            out.count('inpl_points_longitude_only_changed', int(((before[0] != now[0]) & (before[1] == now[1])).sum()))
+            out.count('inpl_points_latitude_only_changed', int(((before[0] == now[0]) & (before[1] != now[1])).sum()))
             step = 'after in-place edit %d (%s assignment, %d positions changed)' % (ne + 1, ed['mode'], int((moved > 0).sum()))
             n0 = len(pending)
             sequence(step, seq)
@@ -1702,23 +1741,22 @@ class C18(Check):
             self._inpl_judge(out, 'result of [%s] reversed in place and transformed back' % what, other, now, self._lonlat(back, system),
                              incl if t == stripe else incl2, t)
             out.count('inpl_result_edits')
-        # ---- the object dies; objects of the same shape built afterwards tend to get its address (id) again
-        dead = id(box[0].frame if isinstance(box[0], SkyCoord) else box[0])
+        # ---- the object dies; objects of the same shape built, transformed and dropped afterwards get the address (id) of a dead one
+        dead = {id(box[0].frame if isinstance(box[0], SkyCoord) else box[0])}
         box[0] = None
-        held = []
-        for k in range(4):
-            lon, lat = np.mod(lon0 + 40.0 * (k + 1), 360.0), -lat0
-            nb = self._source(lon, lat, system, stripe, frame_api)
-            reused = id(nb.frame if isinstance(nb, SkyCoord) else nb) == dead
+        for k in range(5):
+            # (longitudes: those the dropped object started with, those it ended with, others; latitudes always different ones)
+            nb = self._source((lon0, exp_lon, np.mod(lon0 + 40.0 * k, 360.0))[k % 3], lat0[..., ::-1] if k % 2 else -lat0, system, stripe, frame_api)
+            fid = id(nb.frame if isinstance(nb, SkyCoord) else nb)
+            reused = fid in dead
+            dead.add(fid)
             content = self._lonlat(nb, system)
             res = nb.transform_to(SDSSMuNu(stripe=stripe) if system == 'icrs' else ICRS())
-            self._inpl_judge(out, '%s, %s, new object built after the edited one was dropped%s' % (name, arrow, ' (same id)' if reused else ''),
+            self._inpl_judge(out, '%s, %s, new object built after %d earlier ones were dropped%s' % (name, arrow, k + 1, ' (it has the id of one of them)' if reused else ''),
                              system, content, self._lonlat(res, other), incl, stripe)
             out.count('inpl_successor_objects')
-            if reused:
-                out.count('inpl_successor_objects_same_id')
-                break
-            held.append(nb)
+            out.count('inpl_successor_objects_same_id', int(reused))
+            nb = res = None
 
     def _run_inplace(self, case, out):
         stripe, s2 = int(case['stripe']), int(case['stripe2'])
